@@ -31,6 +31,35 @@ type Genuine struct {
 	Canon      string   `json:"canon,omitempty"`
 	KeyInfo    string   `json:"key_info,omitempty"`
 	ArtSigner  string   `json:"art_signer,omitempty"` // artifact entry only
+	// Stale, per assertion: "" or one of staleKinds - the assertion is genuine (and signed as the layout
+	// says) but one of its conditions does not hold for this SP at this time, as with an old message
+	// any user of the IdP can have captured.  It stays in the trusted set: whether it may be returned
+	// is for C02-C04; what C01 asks is that its signature vouches for nothing but itself.
+	Stale []string `json:"stale,omitempty"`
+}
+
+var staleKinds = []string{"expired", "not-yet", "audience", "recipient", "inresponseto", "issuer", "confirmation-expired"}
+
+func makeStale(a *forge.AssertionSpec, kind string) {
+	now := fix.Epoch
+	switch kind {
+	case "expired":
+		a.NotOnOrAfter = forge.TP(now.Add(-time.Hour))
+		a.NotBefore = forge.TP(now.Add(-2 * time.Hour))
+	case "not-yet":
+		a.NotBefore = forge.TP(now.Add(time.Hour))
+		a.NotOnOrAfter = forge.TP(now.Add(2 * time.Hour))
+	case "audience":
+		a.Audiences = [][]string{{"https://other-sp.example.com/metadata"}}
+	case "recipient":
+		a.Confirmations[0].Recipient = forge.S("https://other-sp.example.com/acs")
+	case "inresponseto":
+		a.Confirmations[0].InResponseTo = forge.S("id-somebody-elses-request")
+	case "issuer":
+		a.Issuer = forge.S("https://other-idp.example.com/metadata")
+	case "confirmation-expired":
+		a.Confirmations[0].NotOnOrAfter = forge.TP(now.Add(-time.Hour))
+	}
 }
 
 // Op is one step of the attacker program.  I and J select elements (modulo the
@@ -56,7 +85,12 @@ type Case struct {
 	// (as a long-running SP would have), then the attacker's document - nothing remembered from
 	// an earlier, valid message may make a later one acceptable.
 	Warm bool `json:"warm,omitempty"`
-	Ops  []Op `json:"ops"`
+	// Prior: the same ServiceProvider value was configured with this trust configuration while it
+	// processed the genuine message(s) (Warm), and was then reconfigured to Trust (refreshed metadata with
+	// the same entityID after a key rotation, a changed pin).  What counts is the configuration in force
+	// when the document is presented.
+	Prior string `json:"prior,omitempty"`
+	Ops   []Op   `json:"ops"`
 }
 
 const evil = "EVIL"
@@ -158,6 +192,9 @@ func buildGenuine(g *Genuine, msg int) forge.ResponseSpec {
 	for i := 0; i < g.NAssert; i++ {
 		a := spkit.BaselineAssertion(now, "id-req", "", fmt.Sprintf("id-assert-m%d-%d", msg, i), fmt.Sprintf("genuine-m%d-%d@idp.example.com", msg, i))
 		a.Statements = [][]forge.Attr{{{Name: "uid", Values: []string{fmt.Sprintf("genuine-uid-m%d-%d", msg, i)}}, {Name: "role", Values: []string{"reader", fmt.Sprintf("tenant-m%d-%d", msg, i)}}}}
+		if i < len(g.Stale) && g.Stale[i] != "" {
+			makeStale(&a, g.Stale[i])
+		}
 		if i < len(g.AsrtSigner) {
 			a.Sign = signSpec(g, g.AsrtSigner[i])
 		}
@@ -831,13 +868,20 @@ func check(c Case) pbt.Result {
 	}
 	doc := forge.Bytes(at.root)
 
-	sp := spkit.NewSP(spkit.Config{Trust: c.Trust})
+	first := c.Trust
+	if c.Prior != "" {
+		first = c.Prior
+	}
+	sp := spkit.NewSP(spkit.Config{Trust: first})
 	for i, wd := range warmDocs {
 		if i == 0 && c.Entry == "artifact" {
 			_ = spkit.ParseArtifactXML(sp, wd, []string{"id-req"}, "id-artreq", spkit.SPACS)
 		} else {
 			_ = spkit.ParseXML(sp, wd, []string{"id-req"}, spkit.SPACS)
 		}
+	}
+	if c.Prior != "" {
+		spkit.Retrust(sp, c.Trust)
 	}
 	var o spkit.Outcome
 	switch c.Entry {
@@ -850,6 +894,15 @@ func check(c Case) pbt.Result {
 	}
 
 	res := pbt.Result{Classes: []string{"trust:" + c.Trust, "entry:" + c.Entry}}
+	if c.Prior != "" && c.Warm {
+		res.Classes = append(res.Classes, "reconfigured-after-warm-up")
+	}
+	for _, st := range c.G.Stale {
+		if st != "" {
+			res.Classes = append(res.Classes, "stale-genuine-assertion")
+			break
+		}
+	}
 	kinds := map[string]bool{}
 	for _, op := range c.Ops {
 		kinds[op.Kind] = true
@@ -862,9 +915,17 @@ func check(c Case) pbt.Result {
 	res.Classes = append(res.Classes, ks...)
 	hasSig := strings.Contains(string(doc), "SignatureValue")
 	res.NonTrivial = hasSig && (at.forged || len(truth) == 0) && len(c.Ops) > 0
+	nAll := 0
+	for _, r := range specs {
+		nAll += len(r.Assertions)
+	}
 	if len(truth) == 0 {
 		res.Classes = append(res.Classes, "truth:empty")
 		res.NonTrivial = hasSig
+	} else if len(truth) < nAll && hasSig {
+		// the genuine material itself mixes covered and uncovered assertions
+		res.Classes = append(res.Classes, "truth:partial")
+		res.NonTrivial = true
 	}
 	if o.Panic != "" {
 		res.Err = "panic: " + o.Panic
@@ -874,7 +935,11 @@ func check(c Case) pbt.Result {
 		res.Classes = append(res.Classes, "untransformed")
 		// non-vacuity: the untransformed genuine message is accepted iff every... at least one
 		// assertion is covered by a trusted signature (all conditions are valid by construction)
-		allCovered := len(truth) == c.G.NAssert && !c.G2 && (c.Entry != "artifact" || c.G.ArtSigner == "" || trusted(c.Trust, c.G.ArtSigner))
+		anyStale := false
+		for _, st := range c.G.Stale {
+			anyStale = anyStale || st != ""
+		}
+		allCovered := len(truth) == c.G.NAssert && !c.G2 && !anyStale && (c.Entry != "artifact" || c.G.ArtSigner == "" || trusted(c.Trust, c.G.ArtSigner))
 		if allCovered && c.G.KeyInfo == "" && !o.Accepted() {
 			res.Err = fmt.Sprintf("harness sanity: untransformed genuinely signed message rejected: %s", o.Describe())
 			return res
@@ -973,6 +1038,11 @@ func genGenuine(t *rapid.T, entry string) Genuine {
 		}
 		g.AsrtSigner = append(g.AsrtSigner, s)
 		g.Encrypted = append(g.Encrypted, rapid.IntRange(0, 3).Draw(t, "enc") == 0)
+		st := ""
+		if rapid.IntRange(0, 4).Draw(t, "stale?") == 0 {
+			st = rapid.SampledFrom(staleKinds).Draw(t, "stale")
+		}
+		g.Stale = append(g.Stale, st)
 	}
 	g.Method = rapid.SampledFrom([]string{"", "", "http://www.w3.org/2000/09/xmldsig#rsa-sha1", "http://www.w3.org/2001/04/xmldsig-more#rsa-sha512"}).Draw(t, "method")
 	g.Canon = rapid.SampledFrom([]string{"", "", "", "exc-comments"}).Draw(t, "canon")
@@ -989,6 +1059,9 @@ func gen(t *rapid.T) Case {
 		Entry: rapid.SampledFrom([]string{"xml", "xml", "post", "artifact"}).Draw(t, "entry"),
 		G2:    rapid.IntRange(0, 2).Draw(t, "g2") == 0,
 		Warm:  rapid.IntRange(0, 2).Draw(t, "warm") == 0,
+	}
+	if rapid.IntRange(0, 3).Draw(t, "reconfigured") == 0 {
+		c.Prior = rapid.SampledFrom(spkit.Trusts).Draw(t, "prior")
 	}
 	c.G = genGenuine(t, c.Entry)
 	if (c.Trust == "fp256" || c.Trust == "fp512") && c.G.KeyInfo == "none" {
@@ -1151,17 +1224,70 @@ func enumSmuggle(_ string, emit func(Case)) {
 	}
 }
 
+// enumReconfigured: one ServiceProvider value accepts genuine traffic under one trust configuration
+// and is then reconfigured to every other one; the same (untransformed) message is presented again.
+func enumReconfigured(_ string, emit func(Case)) {
+	for _, prior := range spkit.Trusts {
+		for _, trust := range spkit.Trusts {
+			if prior == trust {
+				continue
+			}
+			for _, signer := range []string{"idp", "idp2"} {
+				for _, entry := range []string{"xml", "post", "artifact"} {
+					for _, layout := range []string{"resp", "assert", "both"} {
+						g := Genuine{NAssert: 1, AsrtSigner: []string{""}, Encrypted: []bool{false}}
+						if layout != "assert" {
+							g.RespSigner = signer
+						}
+						if layout != "resp" {
+							g.AsrtSigner[0] = signer
+						}
+						if entry == "artifact" && layout == "both" {
+							g.ArtSigner = signer
+						}
+						emit(Case{Trust: trust, Prior: prior, Warm: true, Entry: entry, G: g})
+					}
+				}
+			}
+		}
+	}
+}
+
+// enumStaleSibling: two assertions in an unsigned Response; one is genuine and signed but not valid
+// for this SP now (every kind of staleness), the other is unsigned or signed by an untrusted key, in
+// both document orders, the signed one plain or encrypted (encrypted assertions are processed first).
+func enumStaleSibling(_ string, emit func(Case)) {
+	for _, trust := range []string{"meta1", "pinned", "fp256"} {
+		for _, entry := range []string{"xml", "post", "artifact"} {
+			for _, st := range staleKinds {
+				for _, signedFirst := range []bool{true, false} {
+					for _, enc := range []int{0, 1, 2, 3} {
+						for _, other := range []string{"", "attacker"} {
+							g := Genuine{NAssert: 2, AsrtSigner: []string{"idp", other}, Stale: []string{st, ""}, Encrypted: []bool{enc&1 != 0, enc&2 != 0}}
+							if !signedFirst {
+								g.AsrtSigner = []string{other, "idp"}
+								g.Stale = []string{"", st}
+							}
+							emit(Case{Trust: trust, Entry: entry, G: g})
+						}
+					}
+				}
+			}
+		}
+	}
+}
+
 var prop = &pbt.Prop[Case]{
 	ID: "C01",
 	Rule: "cases: a message built and signed by the harness (layouts Response/Assertion/both/neither/first-only signed, 1-2 assertions, plain or encrypted to the SP, signer in {trusted, second trusted, IdP encryption-only key, untrusted key with the same subject DN}, several signature methods, canonicalisers and KeyInfo styles, optionally inside a signed/unsigned ArtifactResponse) " +
 		"x trust configuration {metadata one cert, two certs + encryption cert, use omitted, pinned certificate, fingerprint sha256/sha512} x entry point {XML, POST, artifact} x attacker program of 0-6 operations " +
 		"(wrapping macro over the full placement grid, evil copies, move/copy/remove of any element, splicing from a second captured genuine message, ID and Reference URI edits, KeyInfo substitution incl. RSAKeyValue, re-signing with untrusted keys, comment/PI/CDATA splits, namespace tricks, encryption of forged or rearranged assertions to the SP with round-trip hazard tokens). " +
-		"All conditions of every genuine and forged assertion are valid for the SP. oracle: whenever an assertion is returned, its identity fingerprint (issuer, name ID, confirmations, conditions, authn and attribute statements) must equal that of an assertion that the harness itself placed under a signature of a key the configured trust accepts. " +
-		"non-trivial: at least one operation, the presented document still carries a signature value, and it contains forged identity content (or no content at all was ever trusted). distinct: sha256 of the JSON case.",
+		"Conditions of genuine and forged assertions are valid for the SP, except that a genuine assertion may be stale (expired, not yet valid, other audience/recipient/request/issuer) beside its siblings; the ServiceProvider value may have served genuine traffic under ANOTHER trust configuration before being reconfigured to the one in force. oracle: whenever an assertion is returned, its identity fingerprint (issuer, name ID, confirmations, conditions, authn and attribute statements) must equal that of an assertion that the harness itself placed under a signature of a key the configured trust accepts. " +
+		"non-trivial: at least one operation, the presented document still carries a signature value, and it contains forged identity content (or no content at all was ever trusted, or the message as built mixes assertions that are covered by a trusted signature with ones that are not). distinct: sha256 of the JSON case.",
 	Gen:   gen,
 	Check: check,
 	Reset: fix.Reset,
-	Enums: []pbt.Enum[Case]{{Name: "xsw-placement-grid", Each: enumXSWGrid}, {Name: "untrusted-signers", Each: enumUntrusted}, {Name: "fake-signature-elements", Each: enumFakeSignatures}, {Name: "smuggled-descendant-assertions", Each: enumSmuggle}},
+	Enums: []pbt.Enum[Case]{{Name: "xsw-placement-grid", Each: enumXSWGrid}, {Name: "untrusted-signers", Each: enumUntrusted}, {Name: "fake-signature-elements", Each: enumFakeSignatures}, {Name: "smuggled-descendant-assertions", Each: enumSmuggle}, {Name: "reconfigured-trust", Each: enumReconfigured}, {Name: "stale-signed-sibling", Each: enumStaleSibling}},
 	Assumptions: []string{
 		"absence of an accepting forgery is shown only for the generated program space",
 		"the dsig clock is pinned inside the fixtures' certificate validity",
